@@ -264,3 +264,46 @@ def arms_of(body, info):
     for v, n in names.items():
         out[n] = info["targets"].get(v, info["otherwise"])
     return out
+
+
+def constructed_errors(f, b, depth=3):
+    """Variants of the crate's Error enum that `b` or a closure it creates (map_err / ok_or_else arguments) constructs."""
+    out = set()
+    work = [(b, 0)]
+    seen = set()
+    while work:
+        x, d = work.pop()
+        if x.path in seen:
+            continue
+        seen.add(x.path)
+        for bb in x.reachable():
+            for st in x.stmts(bb):
+                if st["k"] == "assign" and st["rv"]["r"] == "agg" and st["rv"].get("adt", "").endswith("errors::Error"):
+                    out.add(st["rv"]["variant"])
+        if d < depth:
+            for cb in f.closures_of(x):
+                work.append((cb, d + 1))
+    return out
+
+
+def call_leaves(b, op, depth=0, seen=None):
+    """Calls whose results flow into `op` through moves, casts and arithmetic (pass-through calls are reported too)."""
+    out = set()
+    seen = seen if seen is not None else set()
+    if depth > 8:
+        return out
+    for lf in b.origins(op):
+        for v in lf.get("via", []) or []:
+            out.add(v)
+        if lf["kind"] == "call":
+            out.add(lf["call"])
+        elif lf["kind"] in ("bin", "un", "cast") and lf.get("stmt") is not None:
+            key = id(lf["stmt"])
+            if key in seen:
+                continue
+            seen.add(key)
+            rv = lf["stmt"]["rv"]
+            for k2 in ("o", "a", "b"):
+                if rv.get(k2) is not None:
+                    out |= call_leaves(b, rv[k2], depth + 1, seen)
+    return out
